@@ -209,6 +209,9 @@ func (c14) Plan(tier string) []fw.Unit {
 	for sh := 0; sh < 4; sh++ {
 		us = append(us, fw.Unit{Check: "C14", Kind: "changed", Tier: tier, Spec: fw.Spec(enumSpec{Shard: sh, Shards: 4})})
 	}
+	for sh := 0; sh < 4; sh++ {
+		us = append(us, fw.Unit{Check: "C14", Kind: "start-reset", Tier: tier, Spec: fw.Spec(enumSpec{Shard: sh, Shards: 4})})
+	}
 	for sh := 0; sh < 8; sh++ {
 		us = append(us, fw.Unit{Check: "C14", Kind: "when-gate", Tier: tier, Spec: fw.Spec(enumSpec{Shard: sh, Shards: 8})})
 	}
@@ -259,6 +262,9 @@ func (c14) Run(u fw.Unit) fw.Result {
 	}
 	if u.Kind == "when-cap" {
 		return c14WhenCap(u)
+	}
+	if u.Kind == "start-reset" {
+		return c14StartReset(u)
 	}
 	sp := parseEnum(u)
 	q := c14Queries()[sp.Cfg]
